@@ -202,13 +202,21 @@ func (e *Env) RErr(pkgs []*packages.Package, floorN int) {
 				}
 			}
 			is, ok := next.(*ast.IfStmt)
-			if !ok {
-				e.Run.Violation("R-ERR", key, pos, "the error is not checked by the next statement")
-				continue
+			checks, exact := false, false
+			if ok {
+				checks, exact = condChecksNonNil(info, is.Cond, errObj)
 			}
-			checks, exact := condChecksNonNil(info, is.Cond, errObj)
-			if !checks {
-				e.Run.Violation("R-ERR", key, pos, "the next statement does not test the error against nil")
+			if !ok || !checks {
+				// no `if err != nil` right after the call: the error is still handled if it is
+				// kept and handed on by every return that follows (the partial-result idiom in
+				// any arrangement of its tests)
+				if why := e.everyLaterReturnCarries(info, s.fd, p, errObj); why == "" {
+					e.Run.OK("R-ERR", key, pos, "kept and returned by every later return")
+				} else if !ok {
+					e.Run.Violation("R-ERR", key, pos, "the error is not checked by the next statement, and "+why)
+				} else {
+					e.Run.Violation("R-ERR", key, pos, "the next statement does not test the error against nil, and "+why)
+				}
 				continue
 			}
 			okB, why := errBranchOK(info, is.Body.List, errObj)
@@ -278,4 +286,42 @@ func shortFunc(fn *types.Func) string {
 	k = strings.ReplaceAll(k, load.ModPath+"/", "")
 	k = strings.ReplaceAll(k, load.ModPath, "dst")
 	return k
+}
+
+// everyLaterReturnCarries: "" when at least one return follows the assignment and every return
+// after it (outside function literals) has the error variable itself among its results, or
+// another error variable (a later failure, returned from its own check).
+func (e *Env) everyLaterReturnCarries(info *types.Info, fd *ast.FuncDecl, after ast.Node, errObj types.Object) string {
+	n := 0
+	why := ""
+	own := 0
+	ast.Inspect(fd.Body, func(nd ast.Node) bool {
+		if _, isLit := nd.(*ast.FuncLit); isLit {
+			return false
+		}
+		rs, ok := nd.(*ast.ReturnStmt)
+		if !ok || rs.Pos() < after.End() {
+			return true
+		}
+		n++
+		carries := false
+		for _, r := range rs.Results {
+			if id, ok := r.(*ast.Ident); ok {
+				if info.Uses[id] == errObj {
+					carries = true
+					own++
+				} else if v, ok := info.Uses[id].(*types.Var); ok && types.Identical(v.Type(), types.Universe.Lookup("error").Type()) {
+					carries = true
+				}
+			}
+		}
+		if !carries && why == "" {
+			why = "the return at " + e.Prog.Pos(rs.Pos()) + " drops it"
+		}
+		return true
+	})
+	if n == 0 || own == 0 {
+		return "no later return hands it on"
+	}
+	return why
 }
